@@ -24,6 +24,32 @@ pub fn run(toks: &[&str], out: &mut String) {
                 None => out.push_str("None"),
             }
         }
+        // getmut SHAPE IDX : the mutable path (get_mut / IndexMut): the element it addresses and, after writing through
+        // it, the flat positions of the array that changed
+        "getmut" => {
+            let shape = parse_list(toks[1]);
+            let mut a = ramp(&shape);
+            let idx = parse_list(toks[2]);
+            let got = match a.get_mut(&idx) {
+                Some(v) => {
+                    let old = *v;
+                    *v = -1.0;
+                    Some(old)
+                }
+                None => None,
+            };
+            let changed: Vec<String> = a
+                .as_slice()
+                .iter()
+                .enumerate()
+                .filter(|(i, x)| **x != *i as f64)
+                .map(|(i, _)| i.to_string())
+                .collect();
+            match got {
+                Some(v) => out.push_str(&format!("Some {} W{}", int(v), changed.join("+"))),
+                None => out.push_str(&format!("None{}", if changed.is_empty() { String::new() } else { format!(" W{}", changed.join("+")) })),
+            }
+        }
         // getaxis SHAPE a i : only whether a view exists
         "getaxis" => {
             let a = ramp(&parse_list(toks[1]));
